@@ -105,6 +105,20 @@ def digest_forms(ctx):
                 mod=fi.module, node=e.node, function=fq,
                 expected="SuitEnvelopeTagged.from_obj(desc) | from_cbor(open(path,'rb').read()) -> get_manifest_digest(obj's algorithm).hex()",
                 found=repr(v)[:300], key_extra="envelope")
+        # ... and get_manifest_digest(alg) is the hash under that very algorithm of the wrapped manifest bytes, on every path
+        gm = repo.func("suit_generator.suit.envelope", "SuitBasicEnvelopeOperationsMixin.get_manifest_digest")
+        go = [o_ for o_ in Evaluator(repo, inline_depth=0).outcomes(gm) if o_.kind == "return"]
+        oks = []
+        for o_ in go:
+            for g_, t in cases(o_.value):
+                ok_t = isinstance(t, App) and t.op == "a2b_hex" and isinstance(t.args[0], App) and t.args[0].op == "call" and isinstance(t.args[0].args[0], Ref) \
+                    and t.args[0].args[0].obj.name == "hash" and isinstance(t.args[0].args[1], App) and t.args[0].args[1].op == "new" \
+                    and t.args[0].args[1].args[0].obj.name == "SuitHash" and t.args[0].args[1].args[-1] == Sym("param:alg") \
+                    and t.args[0].args[2] == App("meth:to_cbor", (App("call", (Ref("func", repo.func("suit_generator.suit.envelope", "SuitBasicEnvelopeOperationsMixin.get_manifest")), Sym("param:self"))),))
+                oks.append(ok_t)
+        R.check("C05-D1a digest forms", bool(oks) and all(oks), "get_manifest_digest(alg) = SuitHash(alg).hash(wrapped manifest) on every path", mod=gm.module,
+                node=gm.node, function=ctx.fq(gm), expected="a2b_hex(SuitHash(alg).hash(self.get_manifest().to_cbor())) - no result reused across algorithms",
+                found=f"{[repr(o_.value)[:200] for o_ in go]}", key_extra="get_manifest_digest")
     e = one(None)
     if e is not None:
         R.check("C05-D1a digest forms", e.args[2] == Const(""), "no bytes given: placeholder (filled by the refreshers, C01)", mod=fi.module,
